@@ -869,6 +869,12 @@ func (c *deadlineContextWriter) writeContext(ctx context.Context, p []byte) (int
 		<-c.semaphore
 	}()
 
+	// select picks one of the ready cases at random: make sure that p is not written
+	// if ctx was done before we acquired the semaphore.
+	if err := ctx.Err(); err != nil {
+		return 0, err
+	}
+
 	if c.timeout > 0 {
 		err := c.w.SetWriteDeadline(time.Now().Add(c.timeout))
 		if err != nil {
@@ -909,6 +915,8 @@ type writeRequest struct {
 	resultChan chan<- writeResult
 	// data to write.
 	data []byte
+	// ctx of the request: data is not written if ctx is done when the flusher receives the request.
+	ctx context.Context
 }
 
 type writeResult struct {
@@ -922,6 +930,7 @@ func (w *writeCoalescer) writeContext(ctx context.Context, p []byte) (int, error
 	wr := writeRequest{
 		resultChan: resultChan,
 		data:       p,
+		ctx:        ctx,
 	}
 
 	select {
@@ -961,6 +970,13 @@ func (w *writeCoalescer) writeFlusherImpl(timerC <-chan time.Time, resetTimer fu
 	for {
 		select {
 		case req := <-w.writeCh:
+			// select in writeContext picks one of the ready cases at random: make sure that
+			// the frame is not written if ctx was done before the request got here.
+			if err := req.ctx.Err(); err != nil {
+				// resultChan has capacity 1, so it does not block.
+				req.resultChan <- writeResult{n: 0, err: err}
+				continue
+			}
 			buffers = append(buffers, req.data)
 			resultChans = append(resultChans, req.resultChan)
 			if !running {
